@@ -5,3 +5,36 @@ add("C03",
     "in 3 environments x 2 twins on every run and every answer is judged by CPython's own MRO and a textbook C3.",
     "Guards: G-acyclic, G-nodup for the equality clauses, G-rooted for reading 'no C3 exists' against the mirrored hierarchy.",
     "Lean 4 proof (induction over fuel/rank + history invariant) + differential correspondence + CPython-MRO oracle", "6/C03")
+add("C02",
+    "Theorems C02_fresh (cached order of every node = the order computed from scratch on the current graph, after ANY well-formed history of creations and "
+    "__bases__ reassignments, any dependents iteration order), C02_implied and C02_extends (isOrExtends/extends/__sro__ membership = reachability over current bases or root); "
+    "model (Specification.__setBases/subscribe/unsubscribe/changed) compared with the real code on every run; every answer judged by a reachability oracle and against a freshly built graph.",
+    "Guards: G-acyclic, duplicate-free base lists in histories (WFOp).",
+    "Lean 4 proof (history invariant + 'last visit' propagation argument) + differential correspondence + reachability/fresh-graph oracle", "6/C02")
+add("C04",
+    "Proved so far: lookupRec_eq_first (the nested _lookup walk over depth-indexed containers = first hit over paths enumerated in lexicographic order of "
+    "positions in the resolution orders, then extendors order) — the core of C04_best; the statements C04_sound/complete/best/default over the flat specification are "
+    "evaluated by an independent flat-specification oracle on every implementation answer, and the full registry model (repaired code) is compared with both twins every run.",
+    "stated_not_proved: C04_best/C04_sound/C04_complete at World level (flat-spec refinement) — the oracle evaluates them; only the nested-walk core is a theorem.",
+    "Lean 4 proof (partial: nested-walk core) + differential correspondence + flat-specification oracle", "6/C04")
+add("C06",
+    "ro = C3 of the current registry base graph: C03_ro_eq_c3/roFull_valid give the order computed by ro.ro(registry); the repaired _setBases / _verify model "
+    "(sub-registries re-run _setBases; verifying lookup re-derives ro) is compared with the real code in both flavours and twins, and every `ro` and every answer is judged "
+    "against C3 of the *current* base graph by the flat oracle.",
+    "stated_not_proved: C06_ro as an invariant over registry histories (the oracle checks it on every observed state).",
+    "Lean 4 proof (partial: C3 order of ro.ro) + differential correspondence + flat-specification oracle", "6/C06")
+add("C07",
+    "find_update/find_remove (container read-after-write laws incl. pruning) proved; subscription multiset, the three ordering clauses and unsubscribe semantics are judged by "
+    "the flat oracle on every answer; model compared with both twins.",
+    "stated_not_proved: C07_multiset/C07_order as World-level theorems.",
+    "Lean 4 proof (partial: container laws) + differential correspondence + flat-specification oracle", "6/C07")
+add("C08",
+    "get?_fold_reverse (folding dict.update over the reversed enumeration keeps per key the first binding of the forward one — lookupAll vs lookup) and lookupRec_eq_first proved; "
+    "every entry point is called cold/warm in random order on both twins and compared with lookup/subscriptions answers and the model.",
+    "stated_not_proved: entry-point agreement as theorems over cache states (C05 invariant I1 needed).",
+    "Lean 4 proof (partial: list lemma + walk core) + differential correspondence + cross-entry-point oracle", "6/C08")
+add("C09",
+    "find_update, find_remove, remove_flag (nested containers refine a flat map; pruning loses nothing) proved for all depths/paths; registered/subscribed/allRegistrations/"
+    "allSubscriptions, rebuild() and replay clones judged against the flat map after every step; model compared with both twins.",
+    "stated_not_proved: C09_refines lifted to the whole Registry state; C09_rebuild.",
+    "Lean 4 proof (container refinement laws) + differential correspondence + flat-map oracle", "6/C09")
